@@ -37,12 +37,16 @@ def render(idx, letters, nd):
     return sse.render(idx, [nd] + list(letters)).astype(np.float64)
 
 
-ENCODINGS = ["below", "inside", "above", "nan", "+inf", "-inf"]
+ENCODINGS = ["below", "inside", "above", "zero", "nan", "+inf", "-inf"]
 
 
 def placeholder(enc, letters):
     if enc == "below":
         return -3000.0
+    if enc == "zero":
+        if 0 in letters:
+            return placeholder("inside", letters)
+        return 0.0
     if enc == "above":
         return 20000.0
     if enc == "inside":
@@ -57,7 +61,7 @@ def encode(idx, letters, enc, nodata_for_special=-3000.0):
     Returns (y, nodata_argument).  For NaN / inf encodings the nodata argument is an ordinary
     value that does not occur and the missing cells hold NaN / +-inf.
     """
-    if enc in ("below", "inside", "above"):
+    if enc in ("below", "inside", "above", "zero"):
         nd = placeholder(enc, letters)
         return render(idx, letters, nd), nd
     special = {"nan": np.nan, "+inf": np.inf, "-inf": -np.inf}[enc]
